@@ -3,11 +3,81 @@
 -/
 import Bita.Proofs.PlannerSound
 import Bita.Proofs.ExecutorSound
+import Bita.Proofs.InPlaceFeed
 
 namespace Bita.Proofs
 open Bita Bita.Spec
 
 variable {κ : Type} [DecidableEq κ]
+
+namespace Exec
+
+theorem reorderInPlace_eq (f : Bytes) (ixN : Index κ) (lg : List IoOp) (ixO : Index κ) :
+    (OutSt.mk f ixN lg).reorderInPlace ixO =
+      (ExecSt.run ⟨⟨f, (ixO.strip ixN).1, lg⟩, [], 0⟩ (reorderOps ixO (ixO.strip ixN).1)).map
+        (fun fin => (fin.out, fin.moved + (ixO.strip ixN).2.2)) := by
+  unfold OutSt.reorderInPlace
+  generalize ixO.strip ixN = t
+  obtain ⟨a, b, d⟩ := t
+  simp only
+  cases h : ExecSt.run (κ := κ) ⟨⟨f, a, lg⟩, [], 0⟩ (reorderOps ixO a) <;> simp
+
+theorem feedInv_nil (c : κ → Bytes) (N : List κ) (p : Bytes) (lg : List IoOp) :
+    FeedInv c N ⟨p, indexOf c N, lg⟩ [] :=
+  ⟨(List.filter_eq_self.2 (fun _ _ => rfl)).symm, fun _ _ h => by simp at h⟩
+
+theorem nodup_flatMap_dests (c : κ → Bytes) (N : List κ) (hN : ∀ k ∈ N, c k ≠ [])
+    (PO : List (κ × Nat)) : ∀ (ks : List κ), ks.Nodup →
+      (ks.flatMap (dests PO (placements c N 0))).Nodup := by
+  intro ks
+  induction ks with
+  | nil => intro _; simp
+  | cons k ks ih =>
+    intro h
+    obtain ⟨h1, h2⟩ := List.nodup_cons.1 h
+    rw [List.flatMap_cons, List.nodup_append]
+    refine ⟨nodup_dests c N hN PO k, ih h2, ?_⟩
+    intro a ha b hb hab
+    subst hab
+    simp only [List.mem_flatMap] at hb
+    obtain ⟨k', hk', hb⟩ := hb
+    have e1 := ((mem_dests _ _ _ _).1 ha).1
+    have e2 := ((mem_dests _ _ _ _).1 hb).1
+    have := placements_functional c N 0 hN _ _ _ e1 e2
+    exact h1 (this ▸ hk')
+
+/-- The state reached by the executor is a feed state with `R = O`, with a good write log. -/
+theorem after_exec (c : κ → Bytes) (O N : List κ) (hne : ∀ k, k ∈ O ∨ k ∈ N → c k ≠ [])
+    (ops : List (ROp κ)) (hs : safePlan c O N ops = true) :
+    ∃ fin, ExecSt.run ⟨⟨fileOf c O, ((indexOf c O).strip (indexOf c N)).1, []⟩, [], 0⟩ ops = some fin ∧
+      FeedInv c N fin.out O ∧ LogOk c O N (writesOf fin.out.log) O := by
+  obtain ⟨fin, hfin, h1, h2, _, h4⟩ := executor_sound c O N hne ops hs
+  have hN : ∀ k ∈ N, c k ≠ [] := fun k hk => hne k (Or.inr hk)
+  obtain ⟨hok, hnd, _, _⟩ := safePlan_decode c O N ops hs
+  have hsub := copiesOf_sub_movable c O N ops hok
+  refine ⟨fin, hfin, ⟨h1, h2⟩, ?_⟩
+  rw [h4]
+  constructor
+  · intro w hw
+    obtain ⟨k, hk, hw⟩ := List.mem_flatMap.1 hw
+    obtain ⟨d, hd, rfl⟩ := List.mem_map.1 hw
+    have hm := (mem_dests _ _ _ _).1 hd
+    exact ⟨k, ((mem_movableOf c O N k).1 (hsub k hk)).1, hm.1, rfl, hm.2⟩
+  · have : (List.flatMap (fun k => List.map (fun d => (d, c k))
+          (dests (placements c O 0) (placements c N 0) k))
+          (List.map opKey (List.filter isCopy ops))).map (·.1) =
+        (copiesOf ops).flatMap (dests (placements c O 0) (placements c N 0)) := by
+      rw [List.map_flatMap]
+      simp only [List.map_map]
+      have : ∀ k, ((fun x : Nat × Bytes => x.1) ∘ fun d => (d, c k)) = id := fun _ => rfl
+      simp only [this, List.map_id]
+      rfl
+    rw [this]
+    exact nodup_flatMap_dests c N hN _ _ hnd
+
+end Exec
+
+open Exec
 
 /-- Plain clone (no in-place seed): whatever the output held before (`p`, any bytes, any
 length), feeding any sequence of chunks that contains every source chunk - seeds first, in any
@@ -16,8 +86,8 @@ theorem clone_exact (content : κ → Bytes) (N : List κ) (p : Bytes)
     (hne : ∀ k, k ∈ N → content k ≠ [])
     (ks : List κ) (hall : ∀ k ∈ N, k ∈ ks) :
     resize (feedAll content ⟨p, indexOf content N, []⟩ ks).file (fileOf content N).length
-      = fileOf content N := by
-  sorry
+      = fileOf content N :=
+  feedAll_exact hne ks _ [] (feedInv_nil content N p []) (fun k hk => Or.inr (hall k hk))
 
 /-- In-place update: for every prior tiling `O` and target `N`, `reorder_in_place` succeeds, what
 remains to be fetched are exactly target chunks absent from `O`, and feeding any chunk sequence
@@ -29,7 +99,27 @@ theorem inplace_exact (content : κ → Bytes) (O N : List κ)
       (∀ k, k ∈ st1.index.keys ↔ (k ∈ N ∧ k ∉ O)) ∧
       ∀ ks, (∀ k ∈ st1.index.keys, k ∈ ks) →
         resize (feedAll content st1 ks).file (fileOf content N).length = fileOf content N := by
-  sorry
+  have hN : ∀ k ∈ N, content k ≠ [] := fun k hk => hne k (Or.inr hk)
+  obtain ⟨fin, hfin, hf, _⟩ := after_exec content O N hne _ (planner_sound content O N hne)
+  have hkeys : ∀ k, k ∈ fin.out.index.keys ↔ (k ∈ N ∧ k ∉ O) := by
+    intro k
+    rw [hf.index]
+    simp only [Index.keys, List.mem_map, List.mem_filter, Bool.not_eq_true',
+      List.contains_eq_mem, decide_eq_false_iff_not]
+    constructor
+    · rintro ⟨e, ⟨he, hO⟩, rfl⟩
+      exact ⟨(mem_indexOf content N hN e he).2, hO⟩
+    · rintro ⟨hk, hO⟩
+      obtain ⟨e, he, rfl⟩ := exists_mem_indexOf content N hN k hk
+      exact ⟨e, ⟨he, hO⟩, rfl⟩
+  refine ⟨fin.out, fin.moved + ((indexOf content O).strip (indexOf content N)).2.2, ?_, hkeys, ?_⟩
+  · rw [reorderInPlace_eq, hfin]; rfl
+  · intro ks hks
+    apply feedAll_exact hN ks _ O hf
+    intro k hk
+    by_cases hO : k ∈ O
+    · exact Or.inl hO
+    · exact Or.inr (hks k ((hkeys k).2 ⟨hk, hO⟩))
 
 /-- Every write of an in-place clone (reordering, then any feeds): is one source chunk's bytes
 at one of its source offsets; no location is written twice; a location that already held the
@@ -43,7 +133,16 @@ theorem write_log_exact (content : κ → Bytes) (O N : List κ)
       (W.map (·.1)).Nodup ∧
       (∀ w ∈ W, ∀ k, (k, w.1) ∈ placements content N 0 → (k, w.1) ∉ placements content O 0) ∧
       (∀ w ∈ W, w.1 + w.2.length ≤ (fileOf content N).length) := by
-  sorry
+  intro st1 ret hrun
+  have hN : ∀ k ∈ N, content k ≠ [] := fun k hk => hne k (Or.inr hk)
+  obtain ⟨fin, hfin, hf, hl⟩ := after_exec content O N hne _ (planner_sound content O N hne)
+  rw [reorderInPlace_eq, hfin] at hrun
+  have hst : st1 = fin.out := by
+    simp only [Option.map_some, Option.some.injEq, Prod.mk.injEq] at hrun
+    exact hrun.1.symm
+  subst hst
+  obtain ⟨_, h2⟩ := feedAll_inv (O := O) hN ks fin.out O hf
+  exact logOk_final hN (h2 hl (fun _ h => h))
 
 /-- The same for a plain clone into an output with arbitrary prior bytes. -/
 theorem write_log_exact_plain (content : κ → Bytes) (N : List κ) (p : Bytes)
@@ -52,6 +151,10 @@ theorem write_log_exact_plain (content : κ → Bytes) (N : List κ) (p : Bytes)
     (∀ w ∈ W, ∃ k, (k, w.1) ∈ placements content N 0 ∧ w.2 = content k) ∧
     (W.map (·.1)).Nodup ∧
     (∀ w ∈ W, w.1 + w.2.length ≤ (fileOf content N).length) := by
-  sorry
+  obtain ⟨_, h2⟩ := feedAll_inv (O := ([] : List κ)) hne ks _ [] (feedInv_nil content N p [])
+  have h0 : LogOk content ([] : List κ) N (writesOf ([] : List IoOp)) [] :=
+    ⟨by simp [writesOf], by simp [writesOf]⟩
+  obtain ⟨a, b, _, d⟩ := logOk_final hne (h2 h0 (by simp))
+  exact ⟨a, b, d⟩
 
 end Bita.Proofs
